@@ -3,6 +3,7 @@
   (model: Model/C25.lean; shared lemmas: Lemmas/C25.lean, Lemmas/C25Msg.lean)
 -/
 import MitmVerif.Lemmas.C25Msg
+import MitmVerif.Lemmas.C25Loop
 set_option linter.unusedVariables false
 set_option linter.unusedSimpArgs false
 namespace MitmVerif.Props.C25
@@ -196,5 +197,102 @@ theorem opaque_types_bytewise (buf : Bytes) (off len ty : Nat) (h : layoutOf ty 
     rrData buf off len ty = some ((buf.drop off).take len) := by
   simp [rrData, h]
 
-end MitmVerif.Props.C25
+/-! ### round 3: ASCII names need nothing from the idna codec -/
 
+/-- a host-name style label: 1..63 ASCII bytes, no dot, no ACE prefix `xn--` anywhere. For such a label the model
+    never consults the `Idna` parameter: both directions are the codec's transcribed ASCII fast path. -/
+def asciiPart (p : Text) : Bool :=
+  !p.isEmpty && decide (p.length < 64) && isAscii p && !hasAce p && !p.contains 46
+
+/-- a name all of whose labels are `asciiPart` (or the root name) -/
+def asciiName (t : Text) : Bool := t.isEmpty || (splitDot t).all asciiPart
+
+private theorem asciiPart_good (I : Idna) (p : Text) (h : asciiPart p = true) :
+    encPart I p = some p ∧ decLabel I p = some p := by
+  simp only [asciiPart, Bool.and_eq_true, Bool.not_eq_true', decide_eq_true_eq, List.isEmpty_eq_false_iff] at h
+  obtain ⟨⟨⟨⟨hne, hl⟩, ha⟩, hace⟩, hdot⟩ := h
+  have hd : ¬ (46 : UInt8) ∈ p := by simpa using hdot
+  have henc := encText_ascii_nodot I hne ha hd hl
+  have hlen : ¬ (p.length = 0 ∨ 64 ≤ p.length) := by
+    have : p.length ≠ 0 := by intro h0; exact hne (List.length_eq_zero_iff.mp h0)
+    omega
+  refine ⟨by simp only [encPart, henc, hlen, if_false], ?_⟩
+  simp only [decLabel, decText, hace, Bool.false_eq_true, if_false, ha, if_true, henc, hdot]
+
+/-- **C25 (ASCII names are canonical for every codec).** -/
+theorem canon_of_ascii (I : Idna) (t : Text) (h : asciiName t = true) : CanonName I t := by
+  simp only [asciiName, Bool.or_eq_true, List.isEmpty_iff, List.all_eq_true] at h
+  rcases h with h | h
+  · exact Or.inl h
+  · exact Or.inr (fun p hp => ⟨p, asciiPart_good I p (h p hp)⟩)
+
+/-- well-formedness that does not mention the idna codec at all (decidable by computation) -/
+def wellFormedAscii (m : Msg) : Bool :=
+  decide (m.id < 65536) && decide (m.opCode < 16) && decide (m.reserved < 8) && decide (m.rcode < 16) &&
+  decide (m.questions.length < 65536) && decide (m.answers.length < 65536) && decide (m.authorities.length < 65536) &&
+  decide (m.additionals.length < 65536) &&
+  m.questions.all (fun q => asciiName q.name && decide (q.type < 65536) && decide (q.cls < 65536)) &&
+  (records m).all (fun r => asciiName r.name && decide (r.type < 65536) && decide (r.cls < 65536) &&
+    decide (r.ttl < 4294967296) && decide (r.data.length < 65536) && rdataPlain r.type r.data)
+
+/-- **C25 (round trip, ASCII names, outright).** For messages whose names consist of ASCII labels (the fast path that
+    `str.encode("idna")`/`bytes.decode("idna")` take for them is transcribed in the model) the round trip holds for
+    every instantiation of the idna parameter: nothing about the codec is assumed. Only names with non-ASCII or
+    `xn--` labels remain relative to the codec (`roundtrip` with `CanonName I`). -/
+theorem roundtrip_ascii (I : Idna) (m : Msg) (h : wellFormedAscii m = true) :
+    ∃ b, pack I m = some b ∧ unpack I b = some m := by
+  apply roundtrip
+  simp only [wellFormedAscii, Bool.and_eq_true, decide_eq_true_eq, List.all_eq_true, records] at h
+  obtain ⟨⟨⟨⟨⟨⟨⟨⟨⟨h1, h2⟩, h3⟩, h4⟩, h5⟩, h6⟩, h7⟩, h8⟩, hq⟩, hr⟩ := h
+  have hrr : ∀ r ∈ m.answers ++ m.authorities ++ m.additionals, WFRR I r := by
+    intro r hr'
+    obtain ⟨⟨⟨⟨⟨a1, a2⟩, a3⟩, a4⟩, a5⟩, a6⟩ := hr r hr'
+    exact ⟨canon_of_ascii I _ a1, a2, a3, a4, a5, a6⟩
+  refine ⟨h1, h2, h3, h4, h5, h6, h7, h8, ?_, ?_, ?_, ?_⟩
+  · intro q hq'
+    obtain ⟨⟨a1, a2⟩, a3⟩ := hq q hq'
+    exact ⟨canon_of_ascii I _ a1, a2, a3⟩
+  · exact fun r hr' => hrr r (by simp [hr'])
+  · exact fun r hr' => hrr r (by simp [hr'])
+  · exact fun r hr' => hrr r (by simp [hr'])
+
+-- the example message with the former defect witnesses is covered by the codec-free predicate
+example : wellFormedAscii exampleMsg = true := by decide +kernel
+-- ... and the predicate is not trivial: an IDN label and a 64-byte label are outside it
+example : asciiName [0x62, 0xc3, 0xbc] = false ∧ asciiName (List.replicate 64 0x61) = false ∧
+    asciiName [0x78, 0x6e, 0x2d, 0x2d, 0x61] = false ∧ asciiName [0x61, 0x2e, 0x2e, 0x62] = false := by decide +kernel
+
+/-! ### round 3: every compression-pointer cycle is rejected, in every byte string -/
+
+/-- **C25 (pointer cycles are parse errors — owner and question names).** `Reaches buf off off`: following the
+    compression pointers from `off` leads back to `off` (through any number of names, with or without labels).
+    For every byte string, every such offset and every cache that can arise during `unpack` (`CacheTerm`: see
+    `cache_stays_sound`), `unpack_from_with_compression` returns a parse error — it neither loops nor returns a name. -/
+theorem pointer_cycle_is_error (I : Idna) (buf : Bytes) (off : Nat) (cache : Cache) (depth : Nat)
+    (hc : CacheTerm buf cache) (hcyc : Reaches buf off off) : unpackName I buf off cache depth = none := by
+  cases h : unpackName I buf off cache depth with
+  | none => rfl
+  | some x =>
+    obtain ⟨r, c'⟩ := x
+    exact absurd hcyc (unpackName_term I buf _ off cache depth (Nat.le_refl _) hc r c' h).1.acyclic
+
+/-- the invariant `CacheTerm` holds for the empty cache `unpack` starts with and is kept by every successful call, so it
+    holds for every cache that occurs while a message is decoded -/
+theorem cache_stays_sound (I : Idna) (buf : Bytes) (off : Nat) (cache : Cache) (depth : Nat) (r : Text × Nat) (c' : Cache)
+    (hc : CacheTerm buf cache) (h : unpackName I buf off cache depth = some (r, c')) : CacheTerm buf c' :=
+  (unpackName_term I buf _ off cache depth (Nat.le_refl _) hc r c' h).2
+
+/-- **C25 (pointer cycles are parse errors — names inside record data).** The same for `_expand_name`, whatever its
+    `seen` set holds: a cycle is never expanded and never loops. -/
+theorem expand_cycle_is_error (buf : Bytes) (off : Nat) (seen : List Nat) (hcyc : Reaches buf off off) :
+    expandName buf off seen = none := by
+  cases h : expandName buf off seen with
+  | none => rfl
+  | some e => exact absurd hcyc (expandName_term buf _ off seen (Nat.le_refl _) e h).acyclic
+
+-- a pointer that points at itself, and two pointers that point at each other, are cycles
+example : Reaches [0xc0, 0x00] 0 0 := .one ⟨[], 2, by decide +kernel⟩
+example : Reaches [0xc0, 0x02, 0xc0, 0x00] 0 0 :=
+  .step (b := 2) ⟨[], 2, by decide +kernel⟩ (.one ⟨[], 2, by decide +kernel⟩)
+
+end MitmVerif.Props.C25
